@@ -157,6 +157,116 @@ theorem reverseInterval_involutive (n : Int) (iv : Interval) (h : iv.start ≤ i
 theorem reverseEntry_involutive (n : Int) (p : Int × List Mod) : reverseEntry n (reverseEntry n p) = p := by
   unfold reverseEntry; ext <;> simp; omega
 
+/-! ### stable insertion sort -/
+
+theorem insertBy_perm {α} (key : α → Nat) (x : α) (l : List α) : (insertBy key x l).Perm (x :: l) := by
+  induction l with
+  | nil => exact List.Perm.refl _
+  | cons y t ih =>
+    unfold insertBy
+    split
+    · exact List.Perm.refl _
+    · exact (List.Perm.cons y ih).trans (List.Perm.swap x y t)
+
+theorem sortBy_perm {α} (key : α → Nat) (l : List α) : (sortBy key l).Perm l := by
+  induction l with
+  | nil => exact List.Perm.refl _
+  | cons x t ih => exact (insertBy_perm key x _).trans (List.Perm.cons x ih)
+
+theorem insertBy_map {α β} (f : α → β) (key' : α → Nat) (key : β → Nat) (h : ∀ x, key' x = key (f x)) (x : α)
+    (l : List α) : (insertBy key' x l).map f = insertBy key (f x) (l.map f) := by
+  induction l with
+  | nil => rfl
+  | cons y t ih =>
+    simp only [insertBy, List.map_cons, h]
+    split
+    · rfl
+    · simp [ih]
+
+theorem sortBy_map {α β} (f : α → β) (key' : α → Nat) (key : β → Nat) (h : ∀ x, key' x = key (f x)) (l : List α) :
+    (sortBy key' l).map f = sortBy key (l.map f) := by
+  induction l with
+  | nil => rfl
+  | cons x t ih => simp only [sortBy, List.map_cons, insertBy_map f key' key h, ih]
+
+theorem insertBy_sorted {α} (key : α → Nat) (x : α) (l : List α) (hl : l.Pairwise (fun a b => key a ≤ key b)) :
+    (insertBy key x l).Pairwise (fun a b => key a ≤ key b) := by
+  induction l with
+  | nil => simp [insertBy]
+  | cons y t ih =>
+    unfold insertBy
+    rw [List.pairwise_cons] at hl
+    split
+    · rename_i hxy
+      rw [List.pairwise_cons]
+      refine ⟨?_, List.pairwise_cons.2 hl⟩
+      intro z hz
+      simp only [List.mem_cons] at hz
+      rcases hz with rfl | hz
+      · exact hxy
+      · exact Nat.le_trans hxy (hl.1 z hz)
+    · rename_i hxy
+      rw [List.pairwise_cons]
+      refine ⟨?_, ih hl.2⟩
+      intro z hz
+      have := (insertBy_perm key x t).mem_iff.1 hz
+      simp only [List.mem_cons] at this
+      rcases this with rfl | hz'
+      · omega
+      · exact hl.1 z hz'
+
+theorem sortBy_sorted {α} (key : α → Nat) (l : List α) : (sortBy key l).Pairwise (fun a b => key a ≤ key b) := by
+  induction l with
+  | nil => simp [sortBy]
+  | cons x t ih => exact insertBy_sorted key x _ ih
+
+theorem sortBy_length {α} (key : α → Nat) (l : List α) : (sortBy key l).length = l.length :=
+  (sortBy_perm key l).length_eq
+
+theorem sortBy_isEmpty {α} (key : α → Nat) (l : List α) : (sortBy key l).isEmpty = l.isEmpty := by
+  have := sortBy_length key l
+  cases h1 : sortBy key l <;> cases h2 : l <;> simp_all
+
+theorem insertBy_of_le {α} (key : α → Nat) (x : α) (l : List α) (h : ∀ y ∈ l, key x ≤ key y) :
+    insertBy key x l = x :: l := by
+  cases l with
+  | nil => rfl
+  | cons y t => simp [insertBy, h y (by simp)]
+
+theorem sortBy_of_sorted {α} (key : α → Nat) (l : List α) (h : l.Pairwise (fun a b => key a ≤ key b)) :
+    sortBy key l = l := by
+  induction l with
+  | nil => rfl
+  | cons x t ih =>
+    rw [List.pairwise_cons] at h
+    simp only [sortBy]
+    rw [ih h.2, insertBy_of_le key x t h.1]
+
+/-- a weakly sorted permutation of a strictly sorted list is that list -/
+theorem eq_of_perm_of_sorted {α} (key : α → Nat) (l1 l2 : List α) (hp : l1.Perm l2)
+    (h1 : l1.Pairwise (fun a b => key a ≤ key b)) (h2 : l2.Pairwise (fun a b => key a < key b)) : l1 = l2 := by
+  induction l2 generalizing l1 with
+  | nil => exact hp.eq_nil
+  | cons y u ih =>
+    cases l1 with
+    | nil => exact absurd hp.symm.eq_nil (by simp)
+    | cons x t =>
+      rw [List.pairwise_cons] at h1 h2
+      have hxy : x = y := by
+        have hx : x ∈ y :: u := hp.mem_iff.1 (by simp)
+        simp only [List.mem_cons] at hx
+        rcases hx with hx | hx
+        · exact hx
+        · have hy : y ∈ x :: t := hp.mem_iff.2 (by simp)
+          simp only [List.mem_cons] at hy
+          rcases hy with hy | hy
+          · exact hy.symm
+          · have a1 := h2.1 x hx
+            have a2 := h1.1 y hy
+            omega
+      subst hxy
+      rw [ih t (List.Perm.cons_inv hp) h1.2 h2.2]
+
 /-! ### shift -/
 
 theorem sub_emod_range (k e n : Int) (hk0 : 0 ≤ k) (hk : k < n) (he0 : 0 ≤ e) (he : e < n) :
@@ -218,7 +328,8 @@ theorem shift_spec (a : Annotation) (k : Int) (hn : a.seq ≠ []) (hk : KeysOK a
       b.intervals = (match a.intervals with
         | none => none
         | some [] => none
-        | some l => some (l.map (shiftInterval (k % (a.seq.length : Int)) a.seq.length))) ∧
+        | some l => some (sortBy (fun (iv : Interval) => iv.start.toNat)
+            (l.map (shiftInterval (k % (a.seq.length : Int)) a.seq.length)))) ∧
       b.isotope = a.isotope ∧ b.static = a.static ∧ b.labile = a.labile ∧ b.unknown = a.unknown ∧
       b.charge = a.charge ∧ b.adducts = a.adducts ∧ b.nterm = a.nterm ∧ b.cterm = a.cterm := by
   have hlen : 0 < a.seq.length := List.length_pos_iff.mpr hn
@@ -242,7 +353,10 @@ theorem shift_spec (a : Annotation) (k : Int) (hn : a.seq ≠ []) (hk : KeysOK a
     | some l =>
       cases l with
       | nil => rfl
-      | cons p t => simp
+      | cons p t =>
+        simp only
+        rw [sortBy_isEmpty]
+        simp
 
 theorem modsAt_shift (a b : Annotation) (eff : Int) (he0 : 0 ≤ eff) (he : eff < a.seq.length) (hk : KeysOK a)
     (hb : b.internal = (match a.internal with
@@ -417,69 +531,6 @@ theorem filterMap_getElem?_perm {α} (l : List α) (perm : List Nat) (hp : perm.
   rw [range_filterMap_getElem?] at this
   exact this
 
-
-/-! ### stable insertion sort -/
-
-theorem insertBy_perm {α} (key : α → Nat) (x : α) (l : List α) : (insertBy key x l).Perm (x :: l) := by
-  induction l with
-  | nil => exact List.Perm.refl _
-  | cons y t ih =>
-    unfold insertBy
-    split
-    · exact List.Perm.refl _
-    · exact (List.Perm.cons y ih).trans (List.Perm.swap x y t)
-
-theorem sortBy_perm {α} (key : α → Nat) (l : List α) : (sortBy key l).Perm l := by
-  induction l with
-  | nil => exact List.Perm.refl _
-  | cons x t ih => exact (insertBy_perm key x _).trans (List.Perm.cons x ih)
-
-theorem insertBy_map {α β} (f : α → β) (key' : α → Nat) (key : β → Nat) (h : ∀ x, key' x = key (f x)) (x : α)
-    (l : List α) : (insertBy key' x l).map f = insertBy key (f x) (l.map f) := by
-  induction l with
-  | nil => rfl
-  | cons y t ih =>
-    simp only [insertBy, List.map_cons, h]
-    split
-    · rfl
-    · simp [ih]
-
-theorem sortBy_map {α β} (f : α → β) (key' : α → Nat) (key : β → Nat) (h : ∀ x, key' x = key (f x)) (l : List α) :
-    (sortBy key' l).map f = sortBy key (l.map f) := by
-  induction l with
-  | nil => rfl
-  | cons x t ih => simp only [sortBy, List.map_cons, insertBy_map f key' key h, ih]
-
-theorem insertBy_sorted {α} (key : α → Nat) (x : α) (l : List α) (hl : l.Pairwise (fun a b => key a ≤ key b)) :
-    (insertBy key x l).Pairwise (fun a b => key a ≤ key b) := by
-  induction l with
-  | nil => simp [insertBy]
-  | cons y t ih =>
-    unfold insertBy
-    rw [List.pairwise_cons] at hl
-    split
-    · rename_i hxy
-      rw [List.pairwise_cons]
-      refine ⟨?_, List.pairwise_cons.2 hl⟩
-      intro z hz
-      simp only [List.mem_cons] at hz
-      rcases hz with rfl | hz
-      · exact hxy
-      · exact Nat.le_trans hxy (hl.1 z hz)
-    · rename_i hxy
-      rw [List.pairwise_cons]
-      refine ⟨?_, ih hl.2⟩
-      intro z hz
-      have := (insertBy_perm key x t).mem_iff.1 hz
-      simp only [List.mem_cons] at this
-      rcases this with rfl | hz'
-      · omega
-      · exact hl.1 z hz'
-
-theorem sortBy_sorted {α} (key : α → Nat) (l : List α) : (sortBy key l).Pairwise (fun a b => key a ≤ key b) := by
-  induction l with
-  | nil => simp [sortBy]
-  | cons x t ih => exact insertBy_sorted key x _ ih
 
 theorem sortOrder_perm (seq : List Char) : (sortOrder seq).Perm (List.range seq.length) := by
   unfold sortOrder
@@ -1091,6 +1142,21 @@ theorem shiftInterval_cover (eff n : Int) (iv : Interval) (he0 : 0 ≤ eff) (he 
   · simp only [h, if_false]
     split <;> constructor <;> intro ⟨a, b⟩ <;> constructor <;> omega
 
+
+theorem startSorted_of_ok (n : Int) (L : List Interval)
+    (h1 : ∀ iv ∈ L, 0 ≤ iv.start ∧ iv.start < iv.stop ∧ iv.stop ≤ n)
+    (h2 : L.Pairwise (fun x y => x.stop ≤ y.start)) :
+    L.Pairwise (fun x y => x.start.toNat < y.start.toNat) := by
+  induction L with
+  | nil => exact List.Pairwise.nil
+  | cons x t ih =>
+    rw [List.pairwise_cons] at h2 ⊢
+    refine ⟨?_, ih (fun iv hiv => h1 iv (by simp [hiv])) h2.2⟩
+    intro y hy
+    have a1 := h1 x (by simp)
+    have a2 := h1 y (by simp [hy])
+    have a3 := h2.1 y hy
+    omega
 
 /-! ### facts about the demo annotations -/
 
